@@ -379,11 +379,18 @@ def cfi_case(rng):
     coords = [list(base) for _ in range(ncoord)]
     data = [list(base) for _ in range(ncomp)]
     weights = None if rng.random() < 0.4 else [rng.choice([list(base), [n]]) for _ in range(ncomp)]
-    k = rng.choice(["ok", "ok", "coord-shape", "data-shape", "weight-count", "weight-size", "data-transposed"])
+    k = rng.choice(["ok", "ok", "coord-shape", "data-shape", "weight-count", "weight-size", "data-transposed", "coord-broadcastable", "data-broadcastable"])
     if k == "coord-shape":
         coords[rng.randrange(1, ncoord)] = [n + 1] if len(base) == 1 else [n // 2, 2] if n // 2 != 2 else [n]
     elif k == "data-shape":
         data[rng.randrange(ncomp)] = [n - 1]
+    elif k in ("coord-broadcastable", "data-broadcastable"):
+        # a DIFFERENT shape that numpy would happily broadcast against the others (length 1, a row against a column, 0-d): still inconsistent
+        odd = rng.choice([[1], []] if len(base) == 1 else [[1, base[1]], [base[0], 1], [1], [base[1]]])
+        if k == "coord-broadcastable":
+            coords[rng.randrange(1, ncoord)] = odd
+        else:
+            data[rng.randrange(ncomp)] = odd
     elif k == "weight-count":
         weights = [list(base) for _ in range(ncomp + 1 if (ncomp == 1 or rng.random() < 0.5) else ncomp - 1)]
     elif k == "weight-size":
@@ -407,6 +414,17 @@ REJECTS = {
     "check_region-SN": lambda: vd.inside((np.arange(3.0), np.arange(3.0)), (0.0, 1.0, 2.0, 1.0)),
     "check_region-length": lambda: vd.scatter_points((0.0, 1.0, 0.0), 3),
     "block_split-coord-shapes": lambda: vd.block_split((np.arange(4.0), np.arange(5.0)), spacing=1.0),
+    # only the EXTRA coordinate disagrees (a missing value, a transposed array): the index arrays returned would address it wrongly
+    "rolling_window-extra-coord-shape": lambda: vd.rolling_window((np.arange(6.0), np.arange(6.0) * 0.5, np.arange(5.0)), size=2.0, spacing=1.0),
+    "rolling_window-extra-coord-transposed": lambda: vd.rolling_window(
+        (np.arange(6.0).reshape(2, 3), np.arange(6.0).reshape(2, 3) * 0.5, np.arange(6.0).reshape(3, 2)), size=2.0, spacing=1.0),
+    "expanding_window-extra-coord-shape": lambda: vd.expanding_window((np.arange(6.0), np.arange(6.0) * 0.5, np.arange(5.0)), center=(2.0, 1.0), sizes=[1.0, 3.0]),
+    "block_split-extra-coord-shape": lambda: vd.block_split((np.arange(6.0), np.arange(6.0) * 0.5, np.arange(7.0)), spacing=2.0),
+    "BlockReduce-extra-coord-shape": lambda: vd.BlockReduce(np.mean, spacing=2.0, drop_coords=False).filter(
+        (np.arange(6.0), np.arange(6.0) * 0.5, np.arange(5.0)), np.arange(6.0)),
+    "Trend.fit-extra-coord-shape": lambda: vd.Trend(1).fit((np.arange(6.0), np.arange(6.0) ** 2 % 5, np.arange(4.0)), np.arange(6.0)),
+    "Spline.fit-coord-length-1": lambda: vd.Spline().fit((np.arange(6.0), np.array([2.0])), np.arange(6.0)),
+    "KNeighbors.fit-row-vs-column": lambda: vd.KNeighbors().fit((np.arange(4.0).reshape(1, 4), np.arange(4.0).reshape(4, 1)), np.arange(4.0).reshape(1, 4)),
     "Trend.fit-data-shape": lambda: vd.Trend(1).fit((np.arange(4.0), np.arange(4.0)), np.arange(5.0)),
     "Spline.fit-weights-count": lambda: vd.Spline().fit((np.arange(4.0), np.arange(4.0) ** 2), np.arange(4.0), (np.ones(4), np.ones(4))),
     "VectorSpline2D.fit-one-component": lambda: vd.VectorSpline2D().fit((np.arange(4.0), np.arange(4.0) ** 2), np.arange(4.0)),
